@@ -176,7 +176,7 @@ pub fn worker(shard: usize, nshards: usize, seed: u64, tier: &str, out: &mut Out
         .cloned()
         .collect();
     let (games, small) = match tier {
-        "thorough" => (2500u64, 40000u64),
+        "thorough" => (12000u64, 200000u64),
         _ => (500, 10000),
     };
     let mut mon = Mon { out, seen: HashSet::new(), nontrivial: 0 };
